@@ -155,7 +155,7 @@ func rangeFact(v Term, t types.Type) Term {
 		}
 	}
 	if v.Sort == SSlice {
-		return tAnd(tLe(intLit(0), slLen(v)), tLe(slLen(v), slCap(v)), tLe(slCap(v), bigLit(maxLenS)), tLe(intLit(0), slOff(v)), tLe(intLit(0), slArr(v)))
+		return tAnd(tLe(intLit(0), slLen(v)), tLe(slLen(v), slCap(v)), tLe(slCap(v), bigLit(maxLenS)), tLe(intLit(0), slOff(v)), tLe(slOff(v), bigLit(maxLenS)), tLe(intLit(0), slArr(v)))
 	}
 	return tTrue
 }
